@@ -532,10 +532,20 @@ def run_policy(run, env):
       if i in damage and i > 0:
         ns = sup.study_config.metadata.ns(POLICY_ROOT_NS).ns(
             POLICY_DESIGNER_NS)
-        for sub in list(ns.namespaces()):
+        style = run.get('damage_style', 'lost_all')
+        slots = [(sub, k) for sub in sorted(ns.namespaces(), key=repr)
+                 for k in sorted(ns.abs_ns(sub).keys())]
+        if style.split(':')[0].endswith('_one') and slots:
+          slots = [slots[int(style.split(':')[1]) % len(slots)]]
+        for sub, k in slots:
           layer = ns.abs_ns(sub)
-          for k in list(layer.keys()):
-            layer[k] = '<lost'
+          old = layer[k]
+          if style.startswith('lost') or not isinstance(old, str):
+            layer[k] = '<lost'  # e.g. written by a different version
+          elif style.startswith('truncate'):
+            layer[k] = old[:len(old) // 2]  # e.g. a cut-off write
+          else:
+            del layer[k]
         damaged = True
       try:
         policy = dp.PartiallySerializableDesignerPolicy(
